@@ -2,6 +2,7 @@ package main
 
 import (
 	"fmt"
+	"go/ast"
 	"go/token"
 	"go/types"
 	"strings"
@@ -91,8 +92,13 @@ func (f *frame) enterLoop(li *loopInfo, b *ssa.BasicBlock, pc *Term, st State) (
 	for _, h := range ms.list() {
 		c.havocHeap(st, h)
 	}
-	for k := range st {
-		if strings.HasPrefix(k, "$visited$") || strings.HasPrefix(k, "ghost$") {
+	ghostsInLoop := f.ghostsWrittenIn(li)
+	for _, k := range sortedKeys(st) {
+		if strings.HasPrefix(k, "$visited$") {
+			// only the visited set of a range that lives inside this loop
+			st[k] = c.fresh(k, st[k].Sort)
+		}
+		if strings.HasPrefix(k, "ghost$") && ghostsInLoop[strings.TrimPrefix(k, "ghost$")] {
 			st[k] = c.fresh(k, st[k].Sort)
 		}
 	}
@@ -228,6 +234,9 @@ func verifyFunc(prog *Program, specs *SpecSet, sp *FuncSpec) (res *FuncResult) {
 	if len(fn.Blocks) == 0 {
 		res.Err = "function has no body"
 		return
+	}
+	if fd, ok := fn.Syntax().(*ast.FuncDecl); ok && fd.Body != nil {
+		c.typePos = fd.Body.Lbrace + 1
 	}
 	f := c.newFrame(fn, sp, nil)
 	st := State{}
